@@ -90,13 +90,16 @@ func runStateAdapterPar(seed uint64) {
 			w.probe("adapter_value_exact")
 			return
 		}
+		// C13 states the same from the state network's side: what is stored is that final node or that code
 		for _, o := range items {
 			if o != it && bytes.Equal(got, o.want) {
 				w.violate("C04", "value-not-put", "%s: id of item %x.. holds the bytes derived from another item (%x..), which were never put under it", when, head(it.key, 6), head(o.key, 6))
+				w.violate("C13", "stored-bytes", "%s: key %x.. holds the node/code of another valid item (%x..), not its own", when, head(it.key, 6), head(o.key, 6))
 				return
 			}
 		}
 		w.violate("C04", "value-not-put", "%s: id of item %x.. holds %d bytes that are not the node/code of the item put under it (%d bytes expected)", when, head(it.key, 6), len(got), len(it.want))
+		w.violate("C13", "stored-bytes", "%s: key %x.. holds %d bytes that are not its final node / code (%d bytes expected)", when, head(it.key, 6), len(got), len(it.want))
 	}
 	ops := p.Ops
 	for i := 0; i < len(ops); i++ {
